@@ -2,24 +2,21 @@
 
 package hls
 
-import (
-	"time"
-
-	"github.com/q191201771/naza/pkg/filesystemlayer"
-)
+import "github.com/q191201771/naza/pkg/filesystemlayer"
 
 // VerifSetFsl installs a file-system layer (an instrumented in-memory one for the checks).
 func VerifSetFsl(f filesystemlayer.IFileSystemLayer) { fslCtx = f }
 
-// VerifTickerPeriod, when non-zero, replaces the period of the session-sweep ticker (vgen rewrites
-// time.NewTicker in server_handler.go to verifNewTicker).
-var VerifTickerPeriod time.Duration
+// VerifNoSweep, when true, keeps NewServerHandler from starting its 1 s session-sweep goroutine
+// (nothing can ever stop it; harness worlds are created by the hundred thousand). vgen rewrites
+// `go sh.runLoop()` to verifGo(sh.runLoop); checks that need the sweep call VerifSweep.
+var VerifNoSweep bool
 
-func verifNewTicker(d time.Duration) *time.Ticker {
-	if VerifTickerPeriod != 0 {
-		d = VerifTickerPeriod
+func verifGo(f func()) {
+	if VerifNoSweep {
+		return
 	}
-	return time.NewTicker(d)
+	go f()
 }
 
 // VerifSweep runs the body of the sweep once.
